@@ -840,7 +840,9 @@ func fixedTableLayout(box *bo.BoxFields) {
 				}
 			}
 			if len(columnsWithoutWidth) != 0 {
-				widthPerColumn := width / pr.Float(len(columnsWithoutWidth))
+				// a cell narrower than the spacing and the known columns it
+				// spans must not give the remaining columns a negative width
+				widthPerColumn := pr.Max(0, width/pr.Float(len(columnsWithoutWidth)))
 				for _, j := range columnsWithoutWidth {
 					columnWidths[j] = widthPerColumn
 				}
